@@ -551,10 +551,10 @@ func RunOnce(t *testing.T, mk func() Scenario, tape *Tape, opt RunOpts) (res Res
 				}
 				// nothing enabled: let time pass, in growing jumps, until well past every timeout
 				if sc.Done(w) && quiet >= 2 {
-					break
+					return
 				}
 				if simIdle > w.MaxIdle {
-					break
+					return
 				}
 				d := 100 * time.Millisecond
 				switch {
@@ -569,10 +569,9 @@ func RunOnce(t *testing.T, mk func() Scenario, tape *Tape, opt RunOpts) (res Res
 				simIdle += d
 				w.Effect("drain-advance %v", d)
 				w.Advance(d)
-				if i == budget-1 {
-					res.Inconclusive = true
-				}
 			}
+			// the budget ran out while events were still being produced: no verdict
+			res.Inconclusive = true
 		}
 		drain()
 		if ph, ok := sc.(Phased); ok && !abort {
